@@ -39,12 +39,13 @@ type Cfg struct {
 	SubsidyThreshold uint64
 	MaxStake         uint64 // MaxStakes for every role (stake units)
 	Pool             int64  // genesis balance of the rewards pool account (subsidies): well funded, nearly dry or empty
+	GasLimit         uint64 // genesis block gas limit (8 000 000; 100 000 = a block that holds four transfers)
 }
 
 // DefaultCfg is the table of Appendix B.
 func DefaultCfg() Cfg {
 	return Cfg{Period: 4, MaxRewardsPeriod: 2, WithdrawDelay: 6, Retention: 4, InactWait: 8, PenaltyInactive: 10,
-		SubsidyThreshold: 1000, MaxStake: 150, Pool: 1000000}
+		SubsidyThreshold: 1000, MaxStake: 150, Pool: 1000000, GasLimit: 8000000}
 }
 
 // LastHandlerErr is the reason the staking converter logged for the transaction applied last ("" = none).
@@ -133,6 +134,7 @@ type Node struct {
 // World is the fixture of one history.
 type World struct {
 	A, B    *Node
+	C       *Node // a second builder on the same genesis, created on demand: it builds sibling branches
 	Who     map[string]*Who
 	Names   map[common.Address]string
 	Order   []string // all account names in a fixed order
@@ -184,6 +186,9 @@ func newNode(g *core.Genesis, eng ChainEngine) *Node {
 func (w *World) Stop() {
 	w.A.Bc.Stop()
 	w.B.Bc.Stop()
+	if w.C != nil {
+		w.C.Bc.Stop()
+	}
 }
 
 // GenesisTokens are the stakes of the three genesis validators (LU; stake unit 10): Chancellor, House, Senator.
@@ -213,6 +218,9 @@ func NewWorldEngine(engA ChainEngine) *World {
 		add(fmt.Sprintf("n%d", i), ns[i], ns[i].Addr)
 		w.ValIds = append(w.ValIds, fmt.Sprintf("n%d", i))
 	}
+	// an account that can pay for the gas of one cheap transfer only
+	pk := fixture.Keys("poor", 1)[1]
+	add("p1", pk, pk.Addr)
 	yp := Params()
 	add("c", nil, ContractAddr)
 	add("pool", nil, yp.RewardsPoolAddress)
@@ -229,6 +237,7 @@ func NewWorldEngine(engA ChainEngine) *World {
 		alloc[ns[i].Addr] = core.GenesisAccount{Balance: big.NewInt(10000000)}
 	}
 	alloc[yp.RewardsPoolAddress] = core.GenesisAccount{Balance: big.NewInt(installedCfg.Pool)}
+	alloc[pk.Addr] = core.GenesisAccount{Balance: big.NewInt(30000)}
 	alloc[ContractAddr] = core.GenesisAccount{Balance: big.NewInt(0), Code: contractCode}
 	vals := core.GenesisValidators{}
 	roles := []params.ValidatorRole{params.RoleChancellor, params.RoleHouse, params.RoleSenator}
@@ -238,7 +247,7 @@ func NewWorldEngine(engA ChainEngine) *World {
 			MainPubKey: k.PubComp, BlsPubKey: k.BlsPkB, Token: big.NewInt(GenesisTokens[i-1]), Role: roles[i-1],
 			Status: params.ValidatorOnline}
 	}
-	w.Genesis = &core.Genesis{NetworkId: params.NetworkIdForTestCase, GasLimit: 8000000, Alloc: alloc, Validators: vals,
+	w.Genesis = &core.Genesis{NetworkId: params.NetworkIdForTestCase, GasLimit: installedCfg.GasLimit, Alloc: alloc, Validators: vals,
 		CurrVersion: params.YouV5}
 	w.A, w.B = newNode(w.Genesis, engA), newNode(w.Genesis, nil)
 	return w
@@ -276,6 +285,9 @@ type ABlock struct {
 	Cb  string `json:"cb"`
 	Txs []ATx  `json:"txs"`
 	Ev  []AEv  `json:"ev,omitempty"` // evidences handed to the builder's staking module before the block (C06)
+	// Rg > 0: before the importing node gets this block it is shown a sibling branch that replaces its last Rg blocks, so
+	// that this block makes it switch back and re-adopt them (C06)
+	Rg int `json:"rg,omitempty"`
 }
 
 // AEv is an abstract double-sign evidence against validator V for round = parent height + D, handed to the builder's
@@ -366,6 +378,13 @@ func (w *World) MakeTxAt(a *ATx, nonce uint64, balance *big.Int) *types.Transact
 	case "badnonce": // refused up front
 		to, value, gas = w.Who[a.B].Addr, x, params.TxGas
 		nonce += 3
+	case "lownonce": // a nonce already used: refused up front
+		to, value, gas = w.Who[a.B].Addr, x, params.TxGas
+		if nonce > 0 {
+			nonce--
+		}
+	case "poor": // the sender cannot pay for the gas: refused up front
+		to, value, gas = w.Who[a.B].Addr, x, params.TxGas
 	case "lowgas": // gas limit below the intrinsic gas: refused after gas was bought
 		to, value, gas = w.Who[a.B].Addr, x, params.TxGas-1000
 	case "callset":
@@ -437,6 +456,8 @@ func (w *World) MakeTxAt(a *ATx, nonce uint64, balance *big.Int) *types.Transact
 		if w.GasLimit > 30000 {
 			gas = w.GasLimit - 5000
 		}
+	case "ample": // a transfer with twice the gas limit it needs (gas-limit class "ample")
+		to, value, gas = w.Who[a.B].Addr, x, 2*params.TxGas
 	case "gap": // a transfer one nonce ahead: not executable until the gap is filled
 		to, value, gas = w.Who[a.B].Addr, x, params.TxGas
 		nonce++
@@ -512,7 +533,44 @@ func (r *payoutRecorder) AddReward(validator, coinbase common.Address, value *bi
 // BuildBlock performs the miner's sequence of exported calls on chain A for one abstract block and writes the block.
 // (miner/worker.go commitNewWork, commitTransactions, commitTransaction, commit, resultLoop)
 func (w *World) BuildBlock(ab *ABlock, h *BuildHooks) (*types.Block, types.Receipts, error) {
-	bc := w.A.Bc
+	return w.BuildBlockOn(w.A, ab, h, nil)
+}
+
+// ForkBranch makes the second builder C follow chain A up to height `from` and build n empty sibling blocks on top of it
+// (marked in the header's extra data, so that they differ from A's blocks).  It returns the branch.
+func (w *World) ForkBranch(from uint64, n int) (types.Blocks, error) {
+	if w.C == nil {
+		w.C = newNode(w.Genesis, nil)
+	}
+	for i := uint64(1); i <= from; i++ {
+		blk := w.A.Bc.GetBlockByNumber(i)
+		if blk == nil {
+			return nil, fmt.Errorf("chain A has no block %d", i)
+		}
+		if c := w.C.Bc.GetBlockByNumber(i); c != nil && c.Hash() == blk.Hash() {
+			continue
+		}
+		if err := w.C.Bc.InsertChain(types.Blocks{blk}); err != nil {
+			return nil, fmt.Errorf("second builder cannot follow chain A at %d: %v", i, err)
+		}
+	}
+	if w.C.Bc.CurrentBlock().NumberU64() != from || w.C.Bc.CurrentBlock().Hash() != w.A.Bc.GetBlockByNumber(from).Hash() {
+		return nil, fmt.Errorf("second builder is not on chain A at %d", from)
+	}
+	var out types.Blocks
+	for i := 0; i < n; i++ {
+		blk, _, err := w.BuildBlockOn(w.C, &ABlock{Cb: "g1"}, nil, []byte("alt"))
+		if err != nil {
+			return nil, err
+		}
+		out = append(out, blk)
+	}
+	return out, nil
+}
+
+// BuildBlockOn is BuildBlock on the given node.
+func (w *World) BuildBlockOn(n *Node, ab *ABlock, h *BuildHooks, extra []byte) (*types.Block, types.Receipts, error) {
+	bc := n.Bc
 	parent := bc.CurrentBlock()
 	num := new(big.Int).Add(parent.Number(), big.NewInt(1))
 	cb := w.Who[ab.Cb]
@@ -530,6 +588,9 @@ func (w *World) BuildBlock(ab *ABlock, h *BuildHooks) (*types.Block, types.Recei
 	}
 	hdr := &types.Header{ParentHash: parent.Hash(), Number: num, Time: parent.Time() + 10, Coinbase: cb.Addr,
 		GasLimit: core.CalcGasLimit(parent), GasRewards: big.NewInt(0), Subsidy: big.NewInt(0), Extra: []byte{}}
+	if extra != nil {
+		hdr.Extra = extra
+	}
 	if err := core.ProcessYouVersionState(parent.Header(), hdr); err != nil {
 		return nil, nil, err
 	}
